@@ -446,7 +446,7 @@ example : (Gen.Smat.fcwbAlpha.bind fun tb => some ((witnessLine 0 1).all fun p =
 
 `Dotprops.dist_dots(other)` asks `other.kdtree`; the property caches the index in `_tree`.  The model
 (`Model/DpCache.lean`) tags the cached tree with the geometry it was built from; which code paths drop the
-tree is re-extracted from the source (`Gen/DpTree.lean`).  "Every query point is matched to its nearest
+tree is re-extracted from the source (`Gen/DpTree.lean`): today all of them do.  "Every query point is matched to its nearest
 target point" therefore holds along every history of operations on the same objects, not only for freshly
 built dotprops. -/
 section KdTree
@@ -471,22 +471,24 @@ theorem source_copy_pickle_drop_tree :
 theorem source_arithmetic_invalidates :
     ∀ m ∈ [Method.add, .sub, .mul, .truediv, .setPoints], Gen.DpTree.invalOpt m = some true := by decide
 
-/-- The functions known NOT to reset the tree after masking the arrays (open findings
-`downsample/stale-kdtree`, `subset/stale-kdtree`). -/
-def knownStaleWriters : List String :=
-  ["sampling.downsampling._downsample_dotprops", "morpho.subset._subset_dotprops"]
-
 /-- **Every function that writes Dotprops coordinates invalidates the cached tree** (through `delattr`,
 `_tree = None`, the `points` setter, a registered temporary attribute, or because it writes into a copy it
-has just made) — except the two known offenders.  A new writer that forgets the invalidation, or an
-existing one that loses it, makes this fail. -/
+has just made) — without exception (`_downsample_dotprops` and `_subset_dotprops`, which used to mask
+`_points` directly, go through the `points` setter since a981784 / 757ee4b).  A new writer that forgets
+the invalidation, or an existing one that loses it, makes this fail. -/
 theorem source_writers_invalidate :
-    ∀ w ∈ Gen.DpTree.writers, w.2.2.2.1 = true ∨ w.1 ∈ knownStaleWriters := by decide
+    ∀ w ∈ Gen.DpTree.writers, w.2.2.2.1 = true := by decide
+
+/-- **Every modelled coordinate-changing code path drops the cached tree**: arithmetic, the setter,
+`downsample` and `subset_neuron`. -/
+theorem source_all_methods_invalidate :
+    ∀ m ∈ Method.all, Gen.DpTree.invalOpt m = some true := by decide
 
 /-- The extraction did see the writers the model's events stand for. -/
 theorem source_writers_found :
     ∀ n ∈ ["Dotprops.__add__", "Dotprops.__sub__", "Dotprops.__mul__", "Dotprops.__truediv__",
-           "Dotprops.points.setter"], n ∈ Gen.DpTree.writers.map (·.1) := by decide
+           "Dotprops.points.setter", "sampling.downsampling._downsample_dotprops",
+           "morpho.subset._subset_dotprops"], n ∈ Gen.DpTree.writers.map (·.1) := by decide
 
 /-- **history_tree_fresh.** Along every history of kd-tree reads, tangent reads, in-place coordinate
 changes, copies and pickle round trips on any number of objects in which every in-place change goes through
@@ -527,6 +529,28 @@ theorem history_tree_fresh_source {G : Type} (evs : List (Ev G)) (s : List (Obj 
     (∀ o ∈ (run Gen.DpTree.inval s evs).1, o.Fresh) ∧ ∀ p ∈ (run Gen.DpTree.inval s evs).2, p.1 = p.2 :=
   run_fresh _ evs s hs (safe_of_arithOnly evs h)
 
+/-- With the source as it is now EVERY history is safe … -/
+theorem every_history_safe {G : Type} (evs : List (Ev G)) : safe Gen.DpTree.inval evs = true := by
+  unfold safe
+  rw [List.all_eq_true]
+  intro e _
+  cases e with
+  | mutate m i g =>
+    have hm : m ∈ Method.all := by cases m <;> simp [Method.all]
+    have := source_all_methods_invalidate m hm
+    simp [Gen.DpTree.inval, this]
+  | _ => rfl
+
+/-- **… so, unconditionally: along every history** of NBLAST calls (tree reads), lazy tangent
+computations, in-place and out-of-place arithmetic, `points` assignments, `downsample`, `subset_neuron`
+(in place or on a copy, eager or lazy tangents), copies and pickle round trips, on any number of objects
+that start without a stale tree, **every kd-tree query is answered by a tree built from the coordinates the
+object has at that moment**, and no object is left with a stale tree. -/
+theorem history_tree_always_fresh {G : Type} (evs : List (Ev G)) (s : List (Obj G))
+    (hs : ∀ o ∈ s, o.Fresh) :
+    (∀ o ∈ (run Gen.DpTree.inval s evs).1, o.Fresh) ∧ ∀ p ∈ (run Gen.DpTree.inval s evs).2, p.1 = p.2 :=
+  run_fresh _ evs s hs (every_history_safe evs)
+
 /-- A freshly constructed object (no tree) satisfies the invariant. -/
 theorem new_object_fresh {G : Type} (g : G) (l : Bool) : (⟨g, none, l⟩ : Obj G).Fresh := Or.inl rfl
 
@@ -549,21 +573,24 @@ theorem history_target_score_is_definition (inv : Method → Bool) (evs : List (
   rw [this, ← hcur]
   exact pairRawVia_fresh fn cfg q cur
 
-/-- **What the two known offenders do** (conditional on the extracted flag, so that a repaired navis does
-not break the build): an object that has been a target, then `downsample(inplace=True)`, then a target
-again, is queried through the tree of its OLD coordinates … -/
+/-- **Historical — what navis did before a981784 / 757ee4b** (a statement about the model under a
+hypothetical flag `inv .downsample = false`; the flag extracted from the current source is `true`, see
+`source_all_methods_invalidate`, so this no longer describes the code): an object that has been a target,
+then `downsample(inplace=True)` through a writer that keeps `_tree`, then a target again, is queried through
+the tree of its OLD coordinates … -/
 theorem stale_tree_after_downsample (inv : Method → Bool) (h : inv .downsample = false) :
     (run inv [(⟨0, none, false⟩ : Obj Nat)] [.use 0, .mutate .downsample 0 1, .use 0]).2 = [(0, 0), (0, 1)] := by
   simp [run, step, upd, Obj.mutate, Obj.ensure, Obj.used, Method.needsTangents, h]
 
-/-- … and with lazy tangents a single `downsample` (in place or on the copy `downsample(inplace=False)` /
-`nblast_smart` make) is enough, because `_downsample_dotprops` computes the tangents — and with them the
-tree — right before it masks the points. -/
+/-- … and (historical as well) with lazy tangents a single such `downsample` was enough, because
+`_downsample_dotprops` computes the tangents — and with them the tree — right before it masks the points
+(it still does; the setter now drops that tree again). -/
 theorem stale_tree_after_lazy_downsample (inv : Method → Bool) (h : inv .downsample = false) :
     (run inv [(⟨0, none, true⟩ : Obj Nat)] [.mutate .downsample 0 1, .use 0]).2 = [(0, 0), (0, 1)] := by
   simp [run, step, upd, Obj.mutate, Obj.ensure, Obj.resolve, Obj.used, Method.needsTangents, h]
 
-/-- The consequence for `dist_dots` (concrete): a tree of three old positions with one current point —
+/-- Why the invariant matters (what a stale tree would do to `dist_dots`, concrete): a tree of three old
+positions with one current point —
 the query next to old point 2 gets index 2, `other.vect[2]` does not exist (IndexError); the query next to
 old point 0 silently gets a wrong distance. -/
 example :
@@ -577,6 +604,15 @@ example : arithOnly ([.use 0, .mutate .add 0 1, .use 0, .copy 0, .mutate .mul 1 
     (run Gen.DpTree.inval [(⟨0, none, false⟩ : Obj Nat)]
       [.use 0, .mutate .add 0 1, .use 0, .copy 0, .mutate .mul 1 2, .use 1, .pickle false 0, .use 2]).2 =
       [(0, 0), (1, 1), (2, 2), (1, 1)] := by
+  decide
+
+/-- non-vacuity of `history_tree_always_fresh`: the histories of the former findings — cached target then
+`downsample` in place; lazy tangents then `downsample` on the copy; `subset_neuron` — now log only fresh
+queries with the flags of the current source -/
+example :
+    (run Gen.DpTree.inval [(⟨0, none, false⟩ : Obj Nat)] [.use 0, .mutate .downsample 0 1, .use 0]).2 = [(0, 0), (1, 1)] ∧
+    (run Gen.DpTree.inval [(⟨0, none, true⟩ : Obj Nat)] [.copy 0, .mutate .downsample 1 1, .use 1]).2 = [(0, 0), (1, 1)] ∧
+    (run Gen.DpTree.inval [(⟨0, none, false⟩ : Obj Nat)] [.use 0, .mutate .subset 0 1, .use 0]).2 = [(0, 0), (1, 1)] := by
   decide
 
 end KdTree
